@@ -99,6 +99,8 @@ pub struct SampleStreamSource {
     queue: Arc<SpscRing<MediaSample>>,
     notify: Arc<Notify>,
     pop_lock: Arc<SyncMutex<()>>,
+    /// Serialises producers: the ring is single-producer, but this handle is `Clone + Sync`.
+    push_lock: Arc<SyncMutex<()>>,
     source_closed: Arc<AtomicBool>,
     active_senders: Arc<std::sync::atomic::AtomicUsize>,
     drop_count: Arc<AtomicU64>,
@@ -147,6 +149,7 @@ pub fn sample_track(
         queue,
         notify,
         pop_lock,
+        push_lock: Arc::new(SyncMutex::new(())),
         source_closed,
         active_senders,
         drop_count,
@@ -166,6 +169,7 @@ impl Clone for SampleStreamSource {
             queue: self.queue.clone(),
             notify: self.notify.clone(),
             pop_lock: self.pop_lock.clone(),
+            push_lock: self.push_lock.clone(),
             source_closed: self.source_closed.clone(),
             active_senders: self.active_senders.clone(),
             drop_count: self.drop_count.clone(),
@@ -181,6 +185,7 @@ impl SampleStreamSource {
             return Err(MediaError::Closed);
         }
 
+        let _push_guard = self.push_lock.lock();
         let sample = match self.queue.push(sample) {
             Ok(()) => {
                 #[cfg(rustrtc_verif)]
@@ -276,6 +281,7 @@ impl SampleStreamSource {
             return Err(MediaError::Closed);
         }
 
+        let _push_guard = self.push_lock.lock();
         self.queue
             .push(sample)
             .map_err(|_| MediaError::WouldBlock)?;
